@@ -311,6 +311,11 @@ CORPUS_HISTORIES = [
      ("comb", "or", 3, 2, "operator"), ("comb", "and", 3, 0, "operator")],
     [("leaf", ("leaf", "Key", "gt", ["a"], {})), ("leaf", ("leaf", "Index", "lt", [4], {})), ("leaf", ("leaf", "Value", "lt", [4], {})),
      ("comb", "and", 0, 2, "operator"), ("comb", "or", 3, 1, "operator"), ("comb", "or", 2, 1, "operator")],
+    # a refused combination (key with index), then a successful one, then one that refers to the successful one
+    [("leaf", ("leaf", "Key", "gt", ["a"], {})), ("leaf", ("leaf", "Index", "lt", [4], {})), ("leaf", ("leaf", "Value", "lt", [4], {})),
+     ("comb", "and", 0, 1, "operator"), ("comb", "or", 2, 2, "operator"), ("comb", "and", 4, 2, "operator")],
+    [("leaf", ("leaf", "Index", "gt", [0], {})), ("leaf", ("leaf", "Key", "eq", ["a"], {})), ("leaf", ("leaf", "Value", "gt", [0], {})),
+     ("comb", "xor", 1, 0, "operator"), ("comb", "and", 2, 0, "operator"), ("comb", "or", 4, 2, "class"), ("comb", "and", 5, 4, "operator")],
 ]
 
 
